@@ -91,6 +91,7 @@ func VerifH_C05_revocation_list() {
 		serial int64
 		reason int
 		hasR   bool
+		extras bool
 	}
 	var wants []want
 	for i := 0; i < n; i++ {
@@ -107,8 +108,10 @@ func VerifH_C05_revocation_list() {
 		case 3: // a user-supplied reason extension is replaced by the synthesised one
 			r := vr.Int("reason2", 1, 10)
 			rc.ReasonCode = &r
-			rc.ExtraExtensions = []pkix.Extension{{Id: oidExtensionReasonCode, Value: []byte{10, 1, 6}}}
-			w.reason, w.hasR = r, true
+			// ... and the entry's other extra extensions, before and after it, are kept
+			rc.ExtraExtensions = []pkix.Extension{{Id: asn1.ObjectIdentifier{1, 2, 3, 1}, Value: []byte{5, 0}},
+				{Id: oidExtensionReasonCode, Value: []byte{10, 1, 6}}, {Id: asn1.ObjectIdentifier{1, 2, 3, 2}, Value: []byte{5, 0}}}
+			w.reason, w.hasR, w.extras = r, true, true
 		}
 		wants = append(wants, w)
 		tmpl.RevokedCertificates = append(tmpl.RevokedCertificates, rc)
@@ -135,6 +138,18 @@ func VerifH_C05_revocation_list() {
 				}
 			}
 			vr.Assert(cnt == 1, "exactly one reason-code extension")
+			if w.extras {
+				a, b := 0, 0
+				for _, x := range e.Extensions {
+					if x.Id.Equal(asn1.ObjectIdentifier{1, 2, 3, 1}) {
+						a++
+					}
+					if x.Id.Equal(asn1.ObjectIdentifier{1, 2, 3, 2}) {
+						b++
+					}
+				}
+				vr.Assert(a == 1 && b == 1, "the other extra extensions of the entry are kept, whichever side of the reason code they were on")
+			}
 		} else {
 			vr.Assert(e.ReasonCode == nil, "no reason code for nil or zero")
 		}
